@@ -243,7 +243,7 @@ CLAIMED = {
         "technique": "Coq proof (structural induction over both trees; keyed-join lemma modulo Python key equality) + differential correspondence",
     },
     "C03": {
-        "text": ("34 theorems (Coq, no axioms) over a model of set_value / _apply_change / _update_node with its "
+        "text": ("35 theorems (Coq, no axioms) over a model of set_value / _apply_change / _update_node with its "
                  "whole-document identity-driven recursion and Nodes.make_new_node / wrap_type: the recursion "
                  "equals a pointwise substitution at the addressed position plus true aliases - as mapping values, "
                  "sequence elements and (since the repair 7612ed9) mapping KEYS (C03_set_exact, frame and pointwise "
